@@ -229,6 +229,9 @@ func recursionBound(p *Prog, ci ssa.CallInstruction, f, g *ssa.Function, in map[
 				continue
 			}
 			if hasVisitedScan(ci, cl.Call.Args[0]) {
+				if !pushedIsCompared(ci, cl) {
+					return false, fmt.Sprintf("the value pushed onto the visited list at %s is not the value the scan compares the list's elements with (e.g. an unresolved spelling is pushed while resolved paths are compared): the cycle test never matches", p.Pos(ci.Pos()))
+				}
 				return true, ""
 			}
 		}
@@ -665,3 +668,63 @@ func docOf(p *Prog, fn *ssa.Function) string {
 	return ""
 }
 
+
+// pushedIsCompared: the element appended to the visited list for the
+// recursive call is one of the values the scanning loop compares the list's
+// elements against.
+func pushedIsCompared(ci ssa.CallInstruction, ap *ssa.Call) bool {
+	fn := ci.Parent()
+	// pushed values
+	var pushed []ssa.Value
+	if sl, ok := ap.Call.Args[1].(*ssa.Slice); ok {
+		if al, ok := sl.X.(*ssa.Alloc); ok {
+			for _, w := range elemWrites(al) {
+				pushed = append(pushed, canon(w.Val))
+			}
+		}
+	}
+	if len(pushed) == 0 {
+		return false
+	}
+	base := canon(ap.Call.Args[0])
+	if sl, ok := base.(*ssa.Slice); ok {
+		base = canon(sl.X)
+	}
+	// values compared with elements of the list inside loops
+	compared := map[ssa.Value]bool{}
+	for _, b := range fn.Blocks {
+		if !inLoop(b) {
+			continue
+		}
+		for _, in := range b.Instrs {
+			var ops []ssa.Value
+			switch x := in.(type) {
+			case *ssa.Call:
+				ops = x.Call.Args
+			case *ssa.BinOp:
+				ops = []ssa.Value{x.X, x.Y}
+			default:
+				continue
+			}
+			hasElem := false
+			for _, o := range ops {
+				if ld, ok := canon(o).(*ssa.UnOp); ok {
+					if ia, ok := ld.X.(*ssa.IndexAddr); ok && (sameLoc(ia.X, base) || canon(ia.X) == base) {
+						hasElem = true
+					}
+				}
+			}
+			if hasElem {
+				for _, o := range ops {
+					compared[canon(o)] = true
+				}
+			}
+		}
+	}
+	for _, pv := range pushed {
+		if compared[pv] {
+			return true
+		}
+	}
+	return false
+}
